@@ -157,6 +157,30 @@ def main():
         V.count(evaluations=len(cases), nontrivial=nontriv, traces=len(cases))
         V.notes[f'{label}_selection_order_drift'] = drift_sel[0]
         V.add_sample({'run': label, 'job': {k: jobs[len(jobs) // 2][k] for k in ('columns', 'frame', 'args')}, 'real': got[len(jobs) // 2].get('ok') if got[len(jobs) // 2] else None})
+    # ---- the batch path (compute_batch_ranking builds the interactions of a mini-batch): values that are missing-value symbols
+    # ('', '{}') are values like any other for the interaction feature
+    import itertools
+    bj_items = []
+    for miss in (',{}', 'NA,{}', ','):
+        va = ['', '{}', 'x', 'NA']
+        rows = [[a_, b_, str((i_ + j_) % 2)] for i_, a_ in enumerate(va) for j_, b_ in enumerate(['0', '3', ''])]
+        rng.shuffle(rows)
+        bj_items.append({'columns': ['a', 'b', 'label'], 'rows': rows,
+                         'args': {'heuristic': 'MI-numba-randomized', 'label_column': 'label', 'interaction_order': 2, 'missing_value_symbols': miss, 'combination_number_upper_bound': 10 ** 6}})
+    br = PC.pipe_eval([{'op': 'batch_features', 'items': bj_items}], modules=['pipe_ops'])[0]
+    if br is None or 'ok' not in br:
+        V.violation('raises:batch-path', f'compute_batch_ranking failed: {PC.failure_text(br)}', {'items': bj_items[:1]})
+    else:
+        for it_, ob_ in zip(bj_items, br['ok']):
+            key = f'batch-path rows={it_["rows"]} missing_value_symbols={it_["args"]["missing_value_symbols"]!r}'
+            if 'error' in ob_ or 'a AND b' not in ob_.get('values', {}):
+                V.violation('raises:' + key, f'no interaction column: {ob_.get("error") or ob_.get("columns")}', it_)
+                continue
+            tup = [(r_[0], r_[1]) for r_ in it_['rows']]
+            if canon(ob_['values']['a AND b']) != canon(tup):
+                V.violation(f'kernel:{key} feature=a AND b', f'rows grouped as {canon(ob_["values"]["a AND b"])} by the interaction feature, joint values group them as {canon(tup)}', it_)
+        V.count(evaluations=len(bj_items), nontrivial=len(bj_items), traces=len(bj_items))
+
     # ---- many distinct joint values: the feature must separate all of them (only 64-bit hash collisions are allowed;
     # at 3*10^5 tuples a 64-bit collision has probability ~2.5e-9, a 32-bit digest collides ~10 times)
     rows_l = 300000 if tier == 'quick' else 700000
